@@ -57,14 +57,8 @@
 #include "nifty.h"
 #include "prchunk.h"
 
-#if defined DATEUTILS_VERIF && defined VERIF_MAX_NLINES && defined VERIF_MAX_LLEN
-/* verification hook: shrunk window (see /verif), never active in a normal build */
-# define MAX_NLINES	(VERIF_MAX_NLINES)
-# define MAX_LLEN	(VERIF_MAX_LLEN)
-#else
 #define MAX_NLINES	(16384)
 #define MAX_LLEN	(1024)
-#endif	/* DATEUTILS_VERIF */
 
 #if !defined MAP_ANONYMOUS && defined MAP_ANON
 # define MAP_ANONYMOUS	(MAP_ANON)
@@ -148,11 +142,7 @@ prchunk_fill(prch_ctx_t ctx)
 /* this is a coroutine consisting of a line counter yielding the number of
  * lines read so far and a reader yielding a buffer fill and the number of
  * bytes read */
-#if defined DATEUTILS_VERIF && defined VERIF_CHUNK_SIZE
-# define CHUNK_SIZE	(VERIF_CHUNK_SIZE)
-#else
 #define CHUNK_SIZE	(4096)
-#endif	/* DATEUTILS_VERIF */
 #define YIELD(x)	goto yield##x
 	char *off = ctx->buf + 0;
 	char *bno = ctx->buf + ctx->bno;
